@@ -404,7 +404,11 @@ CmdStr(c) ==
                      THEN LocStr(c.loc) \o <<115, 47>> \o Delimited(c.re, 47) \o (IF c.short = 1 /\ c.re # <<>> THEN <<47>> ELSE <<>>)
                      ELSE LocStr(c.loc) \o <<115, 47>> \o Delimited(c.re, 47) \o <<47>> \o Delimited(c.rep, 47) \o <<47>>
                           \o (IF c.g THEN <<103>> ELSE <<>>)
-      [] k \in {"g", "v"} -> LocStr(c.loc) \o (IF k = "g" THEN <<103>> ELSE <<118>>) \o <<47>> \o Delimited(c.re, 47) \o <<47>> \o CmdsStr(c.cmds)
+      (* spellings: g / global, v / vglobal / g! / global! (field sp, optional) *)
+      [] k \in {"g", "v"} -> LET sp == IF "sp" \in DOMAIN c THEN c.sp ELSE 0
+                                  name == IF k = "g" THEN (IF sp = 2 THEN <<103, 108, 111, 98, 97, 108>> ELSE <<103>>)
+                                          ELSE (CASE sp = 1 -> <<103, 33>> [] sp = 2 -> <<103, 108, 111, 98, 97, 108, 33>> [] OTHER -> <<118>>)
+                              IN LocStr(c.loc) \o name \o <<47>> \o Delimited(c.re, 47) \o <<47>> \o CmdsStr(c.cmds)
       [] k = "r"  -> LocStr(c.loc) \o <<114, 32>> \o c.name
       [] k = "!"  -> LocStr(c.loc) \o <<33, 116, 114, 32, 97, 45, 122, 32, 65, 45, 90>>          \* !tr a-z A-Z
       [] k = "@"  -> LocStr(c.loc) \o <<64, c.reg>>
